@@ -3,7 +3,7 @@
 import z3
 
 from pyvc.contract import Contract, Loop, REG
-from pyvc.engine import ObjT, Opq, PNONE, V, St, Exc, int2v
+from pyvc.engine import ObjT, Opq, PNONE, V, St, Exc, int2v, Unsupported
 from pyvc.library import Abstract
 
 FS = "strax/processors/single_thread.py"
@@ -151,3 +151,81 @@ message_may_come = REG.add(Contract(
                      a.msg_number > S.to_int(S.getitem(S.attr(a.self, "_last_msg_produced"), a.topic)))))],
     raises={},
 ))
+
+
+# --------------------------------------------------------------------------------------
+# PostOffice._read (per reader): messages 0, 1, 2, ... in order, each acknowledged before it is handed out, each taken from
+# the cache under its own number or freshly fetched
+# --------------------------------------------------------------------------------------
+def _may_come(eng, args, kw, st, fr, k, node):
+    eng.oblige("reader", "the reader asks for the message number it is waiting for", st,
+               z3.And(eng.to_int(args[-1]) == eng.to_int(st.env["msg_number"]), eng.to_v(args[-2]) == eng.to_v(st.env["topic"])), node)
+    return k(eng.fresh("may_come", "bool"), st)
+
+
+def _fetch_new(eng, args, kw, st, fr, k, node):
+    fr.on_raise(Exc("StopIteration"), st)
+    fr.on_raise(Exc("Any", Opq(eng.fresh("producer_exc", "V"))), st)
+    m = eng.fresh("fetched", "V")
+    g = dict(st.ghost)
+    g["fetched"] = m
+    g["from_fetch"] = z3.BoolVal(True)
+    return k(Opq(m), St(st.env, st.heap, st.pc, g))
+
+
+def _ack_read(eng, args, kw, st, fr, k, node):
+    eng.oblige("reader", "receipt is acknowledged for this reader, this topic and the number about to be handed out", st,
+               z3.And(eng.to_v(args[-3]) == eng.to_v(st.env["reader"]), eng.to_v(args[-2]) == eng.to_v(st.env["topic"]),
+                      eng.to_int(args[-1]) == eng.to_int(st.env["msg_number"])), node)
+    g = dict(st.ghost)
+    g["acked"] = eng.to_int(args[-1])
+    fr.on_raise(Exc("AssertionError"), st)
+    return k(PNONE, St(st.env, st.heap, st.pc, g))
+
+
+def _read_yields(S, a, v):
+    g = a.ghost
+    return [("messages are handed out under consecutive numbers 0, 1, 2, ...", a.msg_number == g.n_handed),
+            ("a message is acknowledged before it is handed out", g.acked == a.msg_number),
+            ("what is handed out is the cached message of that number, or the one just fetched from the producer",
+             S.Or(S.And(g.from_fetch, S.eq(S.v(v), g.fetched)),
+                  S.And(S.Not(g.from_fetch), S.b(a._has("_msg_i")) if not a._has("_msg_i") else S.eq(S.v(a._msg_i), a.msg_number))))]
+
+
+def _read_after_yield(eng, st, value):
+    g = dict(st.ghost)
+    g["n_handed"] = g["n_handed"] + 1
+    g["from_fetch"] = z3.BoolVal(False)
+    return St(st.env, st.heap, st.pc, g)
+
+
+def _pop_single(eng, args, kw, st, fr, k, node):
+    """result.pop() on the one-element list [result]"""
+    lst = st.env["result"]
+    if isinstance(lst, list) and len(lst) == 1:
+        return k(lst[0], st)
+    raise Unsupported("pop of something that is not the one-element list")
+
+
+def _read_inner_inv(S, a):
+    return []
+
+
+post_office_read = REG.add(Contract(
+    FP, "PostOffice._read",
+    params=dict(self="V", topic="V", reader="V"),
+    ensures=lambda S, a, r: [("the reader is recorded as done", a.ghost.done_recorded)],
+    raises={"Any": lambda S, a: S.true, "AssertionError": lambda S, a: S.true},
+    yields=_read_yields,
+    ghost={"n_handed": z3.IntVal(0), "acked": z3.IntVal(-1), "fetched": z3.Const("nothing_fetched", V), "from_fetch": z3.BoolVal(False),
+           "done_recorded": z3.BoolVal(False)},
+    calls={"self._message_may_come": _may_come, "self._fetch_new": _fetch_new, "self._ack_reader_recieved": _ack_read,
+           "self._count_time": Abstract(sort=None), "log.debug": Abstract(sort=None), "result.pop": _pop_single,
+           ".append": lambda eng, args, kw, st, fr, k, node: k(PNONE, St(st.env, st.heap, st.pc, {**st.ghost, "done_recorded": z3.BoolVal(True)}))},
+    loops={1: Loop(lambda S, a: [("the next number is the count of messages handed out so far; nothing fetched yet for it",
+                                  S.And(a.msg_number == a.ghost.n_handed, S.Not(a.ghost.from_fetch)))]),
+           2: Loop(lambda S, a: [])},
+    loop_ghost={1: ["n_handed", "acked", "fetched", "from_fetch"], 2: []},
+    local_sorts={"_msg_i": "V"},
+))
+post_office_read.after_yield = _read_after_yield
